@@ -21,6 +21,10 @@ def run(chk, replay=None):
         paths = [(0, 0, rnd.choice([2, 3])), (1, rnd.choice([1, 2]), 2), (rnd.choice([-3, 7, 10 ** 6]), rnd.choice([-5, 10 ** 6]), 2), (0, 0, 0)]
         return dict(paths=paths, vmap=dict(n=2, pairs=[(0, 0), (1, 1), (-2, 0), (5, 2)]), nrun=0, nolog=True)
     jobs = c07.make_jobs(chk, 4 if quick else 20, extra=extra)
+    for i, j in enumerate(jobs):
+        # every other generated graph has a supervisor that updates the delay models carried in its own inputs: its returned step state must be
+        # what the next step starts from on every API path (in particular on the step(gs, step_state, output) override path)
+        if j["source"] == "generate" and i % 2 == 0: j["cfg"]["nodes"][j["cfg"]["sup"]]["adaptive"] = True
     for j in jobs: j["tmax"] = min(j.get("tmax") or 48, 48)
     res = cl.run_jobs(jobs, nproc=4 if quick else 10, per_job_timeout=400)
     for j in jobs:
